@@ -346,10 +346,126 @@ impl Prop for C09 {
         exec_line(ctx, case)
     }
 
+    fn defect_model(&self, name: &str, case: &LineCase, v: &Verdict) -> bool {
+        if name != "chunked-date-arithmetic" {
+            return false;
+        }
+        match known_wrong(&case.text) {
+            Some(Some(d)) => v.observed.contains(&format!("Date {{ y: {}, m: {}, d: {}, zone: \"UTC\", off: 0 }}", d.0, d.1, d.2)),
+            Some(None) => v.observed.ends_with("ERR(Unknown calculation)"),
+            None => false,
+        }
+    }
+
     fn rule(&self) -> String {
         "cases are all combinations of date, spelling, month-name synonym, letter case, language, offset and clock instant in the stated sets; non-trivial = the calendar model (own proleptic-Gregorian day arithmetic, self-checked against chrono for every day of years 1..9999) predicted a date / day count or required rejection, and it was compared; month/year offsets whose target day does not exist are generated but unspecified; distinct = distinct (language, clock, text)".into()
     }
     fn assumptions(&self) -> Vec<String> {
         vec!["month names are read from config.json per language; the current year is the harness clock's (2026 by default)".into()]
     }
+}
+
+// ---- defect model for the known findings ------------------------------------------------
+// What the library is known to compute (pinned by executer_test::execute_21..23 and _26): the
+// duration is a plain number of seconds; it is split into 365-day chunks applied as calendar
+// years, 30-day chunks applied as calendar months (subtraction wraps a non-positive month by
+// adding 12 *without* borrowing a year) and a remainder applied as days.
+
+fn parse_duration(s: &str) -> Option<i64> {
+    let toks: Vec<&str> = s.split_whitespace().collect();
+    if toks.is_empty() || toks.len() % 2 != 0 {
+        return None;
+    }
+    let mut total = 0i64;
+    for pair in toks.chunks(2) {
+        let n: i64 = pair[0].parse().ok()?;
+        let days = match pair[1] {
+            "day" | "days" => {
+                let y = n / 365;
+                365 * y + ((n % 365) / 30) * 30 + (n % 365) % 30
+            }
+            "week" | "weeks" => 7 * n,
+            "month" | "months" => 365 * (n / 12) + 30 * (n % 12),
+            "year" | "years" => 365 * n,
+            _ => return None,
+        };
+        total += days * 86400;
+    }
+    Some(total)
+}
+
+fn parse_base(s: &str) -> Option<D> {
+    let s = s.trim();
+    if let Some((d, rest)) = s.split_once('/') {
+        let (m, y) = rest.split_once('/')?;
+        return Some((y.parse().ok()?, m.parse().ok()?, d.parse().ok()?));
+    }
+    let toks: Vec<&str> = s.split_whitespace().collect();
+    if toks.len() == 3 {
+        let d: i64 = toks[0].parse().ok()?;
+        let y: i64 = toks[2].parse().ok()?;
+        for m in 1..=12 {
+            if month_names("en", m).iter().any(|n| n == toks[1]) {
+                return Some((y, m, d));
+            }
+        }
+    }
+    None
+}
+
+/// Some(Some(date)) / Some(None) (= 'Unknown calculation') if the text is one of the generated
+/// arithmetic forms, None otherwise
+fn known_wrong(text: &str) -> Option<Option<D>> {
+    let (dur_text, line) = match text.split_once('\n') {
+        Some((first, second)) => {
+            let d = first.strip_prefix("v = ")?;
+            (Some(d.to_string()), second.to_string())
+        }
+        None => (None, text.to_string()),
+    };
+    let (base_s, op, rest) = if let Some(i) = line.find(" + ") {
+        (&line[..i], '+', &line[i + 3..])
+    } else if let Some(i) = line.find(" - ") {
+        (&line[..i], '-', &line[i + 3..])
+    } else {
+        return None;
+    };
+    let base = parse_base(base_s)?;
+    let secs = match (&dur_text, rest) {
+        (Some(d), "v") => parse_duration(d)?,
+        (None, r) => parse_duration(r)?,
+        _ => return None,
+    };
+    const YEAR: i64 = 365 * 86400;
+    const MONTH: i64 = 30 * 86400;
+    let mut date = base;
+    let mut dur = secs;
+    let years = dur / YEAR;
+    if years > 0 {
+        let y = if op == '+' { date.0 + years } else { date.0 - years };
+        date = (y, date.1, date.2);
+        dur -= years * YEAR;
+    }
+    let months = dur / MONTH;
+    if months > 0 {
+        let (y, m) = if op == '+' {
+            let total = (date.1 - 1) + months;
+            (date.0 + total / 12, total % 12 + 1)
+        } else {
+            let y = date.0 - months / 12;
+            let mut m = date.1 - months % 12;
+            if m <= 0 {
+                m += 12;
+            }
+            (y, m)
+        };
+        date = (y, m, date.2);
+        dur -= months * MONTH;
+    }
+    // the date is built once, after the year and the month step
+    if !cal::valid(date.0, date.1, date.2) {
+        return Some(None);
+    }
+    let days = dur / 86400;
+    Some(Some(cal::add_days(date, if op == '+' { days } else { -days })))
 }
